@@ -96,6 +96,49 @@ ASSUME \A q1, q2 \in QueryP(2) : QueryEq(q1, q2) <=> SortPs(q1.ps) = SortPs(q2.p
 ASSUME \E q1, q2 \in QueryP(2) : AsBuiltQueryEq(q1, q2) /\ ~AsBuiltQueryEq(q2, q1)
 
 -----------------------------------------------------------------------------
+(* Growth beyond C14's statement (judged as observations): AddPath and Contains, AS BUILT.                                *)
+(*  AddPath(i, els): i without its trailing slash, then "/" and the cleaned elements (dot segments resolved inside els    *)
+(*    only -- they never climb into i's own path; letter case kept); no elements left => a single trailing slash.         *)
+(*  Contains(i, w, cs): same scheme when asked (url.Parse folds its case), same host NAME (port ignored, letter case      *)
+(*    significant), and w's cleaned path occurs in i's cleaned path (letter case significant; "" occurs in everything,    *)
+(*    "/" in every non-empty path).  On the segment alphabet used no segment is a prefix of another, so "occurs as a      *)
+(*    substring" is "occurs as a run of whole segments".                                                                  *)
+RECURSIVE RawCleanFrom(_, _, _)
+RawCleanFrom(segs, i, stack) ==
+  IF i > Len(segs) THEN stack
+  ELSE LET x == segs[i] IN
+       IF x = "." \/ x = "" THEN RawCleanFrom(segs, i + 1, stack)
+       ELSE IF x = ".." THEN RawCleanFrom(segs, i + 1, IF stack = <<>> THEN stack ELSE SubSeq(stack, 1, Len(stack) - 1))
+       ELSE RawCleanFrom(segs, i + 1, Append(stack, x))
+RawClean(segs) == RawCleanFrom(segs, 1, <<>>)
+AddPathF(i, els) == LET c == RawClean(els) IN [i EXCEPT !.path = [segs |-> i.path.segs \o c, ts |-> c = <<>>]]
+HostName(h) == CASE h \in {"example.com:8080", "example.com:80", "example.com:443"} -> "example.com"
+                 [] h = "EXAMPLE.COM:8080" -> "EXAMPLE.COM"
+                 [] h \in {"[::1]", "[::1]:8080", "[::2]:8080"} -> "["          \* as built: everything after the first colon is "the port"
+                 [] OTHER -> h
+HasPath(p) == p.segs # <<>> \/ p.ts
+IsRun(a, b) == \E k \in 0..(Len(b) - Len(a)) : \A j \in 1..Len(a) : b[k + j] = a[j]      \* a occurs in b as a run
+PathOccurs(pw, p) == IF ~HasPath(pw) THEN TRUE
+                     ELSE IF ~HasPath(p) THEN FALSE
+                     ELSE IsRun(RawClean(pw.segs), RawClean(p.segs))
+ContainsF(i, w, cs) == /\ cs => LowerOf(i.sch) = LowerOf(w.sch)
+                       /\ HostName(i.host) = HostName(w.host)
+                       /\ PathOccurs(w.path, i.path)
+\* laws of the as-built operations on the bounded spaces
+PathPG == [segs : UNION {[1..k -> {"a", "A", "b", ".", ".."}] : k \in 0..2}, ts : BOOLEAN]
+ElsG == UNION {[1..k -> {"a", "B", ".", ".."}] : k \in 0..2}
+Mini(p) == [sch |-> "https", host |-> "example.com", path |-> p, query |-> [raw |-> FALSE, ps |-> <<>>], frag |-> ""]
+\* a child contains its parent, never climbs above it, and adding nothing is the identity up to equivalence
+ASSUME \A p \in PathPG, e \in ElsG : ContainsF(AddPathF(Mini(p), e), Mini(p), TRUE)
+ASSUME \A p \in PathPG, e \in ElsG : LET c == CleanPath(p) r == CleanPath(AddPathF(Mini(p), e).path) IN Len(c) <= Len(r) /\ SubSeq(r, 1, Len(c)) = c
+ASSUME \A p \in PathPG : Equiv(AddPathF(Mini(p), <<>>), Mini(p), TRUE)
+ASSUME \A p \in PathPG : ContainsF(Mini(p), Mini(p), TRUE)
+\* mutual containment implies equivalence
+ASSUME \A p, q \in PathPG : ContainsF(Mini(p), Mini(q), TRUE) /\ ContainsF(Mini(q), Mini(p), TRUE) => Equiv(Mini(p), Mini(q), TRUE)
+\* NOT a law (TLC finds the witness): containment does not respect the equivalence (letter case, "" vs "/")
+ASSUME \E p, q \in PathPG : Equiv(Mini(p), Mini(q), TRUE) /\ ~ContainsF(Mini(p), Mini(q), TRUE)
+
+-----------------------------------------------------------------------------
 (* A machine over IRI lists: IRIs.Append adds an IRI unless an equivalent    *)
 (* one (ignoring scheme) is present; membership agrees with Equiv.           *)
 CONSTANTS Pool            \* a finite set of presentations used by the machine
